@@ -136,9 +136,11 @@ def run(idx: ProgramIndex, rep: Report, tier: str):
     rep.rule("C02-1", "ExactMarginalLogLikelihood.forward = (+1 log_prob +1 sum(added) +1 sum(prior(closure(module)))) / num_data of the marginal")
     rep.rule("C02-2", "LeaveOneOutPseudoLikelihood.forward reuses the same other terms and divides by the number of observations")
     rep.rule("C02-3", "SumMarginalLogLikelihood.forward = sum of member MLLs (member i with output i, target i) / len(mlls)")
+    rep.rule("C02-4", "no in-place aliasing hazard in the objective code (storage/version domain): accumulators excepted")
     exact(idx, rep)
     loo(idx, rep)
     summll(idx, rep)
+    aliasing(idx, rep)
 
 
 def _other_terms(idx: ProgramIndex, cls: ClassInfo) -> Tuple[FuncInfo, List[str], Affine]:
@@ -305,3 +307,11 @@ def summll(idx: ProgramIndex, rep: Report):
         if not (isinstance(r, ast.Call) and isinstance(r.func, ast.Attribute) and r.func.attr in ("div", "div_") and src(r.args[0]) == "len(self.mlls)") and not (isinstance(r, ast.BinOp) and isinstance(r.op, ast.Div) and src(r.right) == "len(self.mlls)"):
             probs.append("the sum is not divided by len(self.mlls): `%s`" % t)
     rep.add("C02-3", "%s:SumMarginalLogLikelihood.forward" % S.module.name, fi.where, not probs, "sum_i mll_i(output_i, target_i[, *params_i]) / len(mlls)" if not probs else "; ".join(sorted(set(probs))), {"sums": len(sums)})
+
+
+def aliasing(idx: ProgramIndex, rep: Report):
+    from .common_alias import aliasing_obligations
+    funcs = []
+    for cn in ("ExactMarginalLogLikelihood", "LeaveOneOutPseudoLikelihood", "SumMarginalLogLikelihood", "MarginalLogLikelihood"):
+        funcs += list(idx.find_class(cn).methods.values())
+    aliasing_obligations(idx, rep, "C02-4", funcs, 5, "objective methods interpreted")
